@@ -170,12 +170,23 @@ class Database:
             logger.info(
                 "Applying migration version %d (%s)", idx, migration.__name__
             )
-            await migration(self.conn)
-            await self.execute(
-                "insert into versions (version) values (?)",
-                str(idx),
-                commit=True,
-            )
+            # NOTE: A migration and the record that it has been applied are one
+            #       transaction (sqlite's DDL is transactional.) Otherwise a
+            #       server killed between the two finds, the next time it
+            #       starts, a schema that is ahead of the recorded version,
+            #       applies the migration again and fails ('table versions
+            #       already exists', 'duplicate column name') on every start.
+            #
+            await self.conn.execute("BEGIN")
+            try:
+                await migration(self.conn)
+                await self.conn.execute(
+                    "insert into versions (version) values (?)", (str(idx),)
+                )
+                await self.conn.commit()
+            except BaseException:
+                await self.conn.rollback()
+                raise
 
     ####################################################################
     #
